@@ -366,7 +366,15 @@ def run_dataset(ds, acc, rng, n_extra=0):
         src = CSVDailyBarDataSource(ds.dir, None, adjust_prices=ds.adjust)
     check_historical_closes(ds, src, acc, rng)
     src2 = CSVDailyBarDataSource(ds.dir2, None, adjust_prices=ds.adjust)
-    handler = BacktestDataHandler(None, data_sources=[src])
+    if rng.random() < 0.3:
+        # a copy of the source object (what a job queue / multiprocessing does through the pickle protocol) answers like the
+        # original; the sources may be handed to the handler in any iterable
+        import copy
+        src = copy.deepcopy(src) if rng.random() < 0.5 else copy.copy(src)
+        acc.count('C06:datasets_read_through_a_copied_source')
+        handler = BacktestDataHandler(None, data_sources=(src,))
+    else:
+        handler = BacktestDataHandler(None, data_sources=[src])
 
     class Quoted(object):
         """A user's data source with a bid/ask spread around the CSV source's price (the handler only needs get_bid/get_ask)."""
